@@ -39,10 +39,12 @@ from harness.lib import coqbuild, procsched as PS, protocol as P, sched as S
 from harness.lib.coqio import Some
 
 LEVEL = "proof"
-THEOREMS = ["C01_serializable", "C01_acked_exactly_once", "C01_raised_not_reflected", "C01_chain_linear",
+THEOREMS = ["C01_serializable", "C01_serializable_tables", "C01_acked_exactly_once", "C01_raised_not_reflected",
+            "C01_conflict_not_reflected_partial", "C01_conflict_not_reflected_refuted",
+            "C01_version_chain_linear", "C01_snapshot_chain",
             "C01_skeleton_regenerated", "C01_conflict_retried",
             "C01_lock_exclusive_any_topology", "C01_lock_refines_excl", "C01_lock_not_dropped_by_others", "C01_lock_skeleton_regenerated"]
-REQ = ["DS.Model.Commit", "DS.Gen.GenFileLock", "DS.Model.ProcLock"]
+REQ = ["DS.Gen.GenCommit", "DS.Model.Commit", "DS.Gen.GenFileLock", "DS.Model.ProcLock"]
 MANIFEST_ENTRY = {
     "level_text": "Serializability of the OCC commit protocol proved in Coq (C01_serializable and companions) by an inductive "
                   "invariant over every schedule of any number of committers with any clock readings, for exclusive-lock and CAS "
@@ -340,13 +342,14 @@ def _fix_case(case: Dict[str, Any]) -> Dict[str, Any]:
     return c
 
 
-def kind_of(op: Dict[str, Any], init_cur_model: int = 1) -> Tuple[str, int]:
-    """Gallina curk for the operation and its retry budget."""
+def kind_of(op: Dict[str, Any], init_cur_model: int = 1) -> Tuple[str, Any]:
+    """Gallina curk for the operation and its retry budget (Transaction.commit: the REGENERATED bound gen_max_retries;
+    delete_snapshot commits once)."""
     k = op["kind"]
     if k in ("append", "delete_files"):
-        return "KFresh", 50
+        return "KFresh", "gen_max_retries"
     if k == "expire":
-        return "KKeep", 50
+        return "KKeep", "gen_max_retries"
     if k == "delete_snapshot":
         if op.get("which") == "current":
             return f"(KCond {init_cur_model} 0)", 1
@@ -357,7 +360,7 @@ def kind_of(op: Dict[str, Any], init_cur_model: int = 1) -> Tuple[str, int]:
 def model_expr(case: Dict[str, Any], res: P.CaseResult, events: List[Tuple[int, str]]) -> str:
     n = len(case["ops"])
     kinds = " ".join(f"| {i}%nat => {kind_of(op)[0]}" for i, op in enumerate(case["ops"]))
-    maxrs = " ".join(f"| {i}%nat => {kind_of(op)[1]}%nat" for i, op in enumerate(case["ops"]))
+    maxrs = " ".join(f"| {i}%nat => ({kind_of(op)[1]})%nat" for i, op in enumerate(case["ops"]))
     lu0 = res.initial["meta"]["last_updated_ms"]
     cfgs = "{| cas := %s; lockkind := %s |}" % ("true" if case.get("backend") == "s3cas" else "false",
                                                "GrantAll" if case.get("lock") == "grant_all" else
